@@ -174,6 +174,11 @@ def gen_case(rng, big):
         "source": "store" if pos == "store" else "numpy", "grid": [rng.choice([1, 2, 3, 5, max(1, n // 2), n, n + 3]) for n in shape],
         "pos": pos, "kind": kind, "rseed": rng.randrange(10**9),
     }
+    if p["source"] == "numpy" and rng.random() < 0.15:
+        # a zero-width chunk in the source layout (boolean masks leave them behind): the block crosswalk must skip it
+        ax = rng.randrange(nd)
+        c = p["chunks"][ax]
+        c.insert(rng.randint(0, len(c) - 1) if len(c) > 1 else 0, 0)
     return p
 
 
